@@ -1002,6 +1002,7 @@ def run(run):
         run.broken('LINEENDPAIR', inst_le, str(ex), '')
     justprologue_exec(run, fx)
     from . import c02 as c02_
+    c02_.indexfacts(run, fx, 'UNDO')           # 'every call returns': the glyph cache and the pass array are indexed under their bounds on the paths justify takes (shared with C02)
     c02_.localarrays(run, fx, 'UNDO')          # 'every call returns': the per-level totals of justify are not a fixed stack array (shared with C02)
     from . import c16 as c16_
     from .util import OnlyRules
